@@ -23,6 +23,7 @@ import re
 import shutil
 import subprocess
 import sys
+import time
 
 sys.path.insert(0, os.path.dirname(os.path.abspath(__file__)))
 import vlib
@@ -508,7 +509,8 @@ def main():
         "the ~300 range construction sites are NOT modelled: ranges are validated on the generated inputs only (see diag_codes_validated)",
         "kddp's own link step is not run (object output -o x.o); code generation and LLVM are outside the model (parameter codegen_ok)",
     ]
-    ck.coq()
+    if not os.environ.get("C07_DEV_SKIP_COQ"):
+        ck.coq()
     ok, lg = b.ensure_native()
     if not ok:
         ck.violation("build", "kddp/runtime do not build from the current tree", dict(log=lg[-3000:]), no_input=True)
@@ -592,6 +594,7 @@ def main():
         note_codes(resp)
         judge_and_report(resp, c["files"], c["root"], ra, shrink=False)
 
+    log('[c07] %.1fs corpus done' % (time.time()-ck.t0))
     # ---- R. renderer ----------------------------------------------------------------------------
     rtexts = ["ab\ncde", "", "x", "a\tb\r\nzß€😀\n", "\n\nabc", "q" * 33 + "\nrs", "w" * 31 + "\n" + "v" * 32 + "\n\n", "é" * 40]
     if not ck.quick:
@@ -679,6 +682,7 @@ def main():
     ck.cov["render"] = dict(texts=len(rtexts), ranges=n_render, in_text_ranges=n_intext, exhaustive_grids=[(len(g[1]), g[3], g[4]) for g in grids],
                             measured_slack={repr(g[0][:12]): g[2] for g in grids})
 
+    log('[c07] %.1fs renderer done' % (time.time()-ck.t0))
     # ---- F. flags: constructed programs -> model -> real frontend ----------------------------------
     nF = 260 if ck.quick else 4000
     scen = []
@@ -726,6 +730,7 @@ def main():
                              % (flag_mismatch[1], flag_mismatch[2], flag_mismatch[3], flag_mismatch[4], flag_mismatch[5], json.dumps(flag_mismatch[0], ensure_ascii=False)), "")
     ck.cov["flags"] = dict(programs=len(scen), item_kinds=kinds, model_says_stale=n_stale, model_says_root_scanner_error=n_rootscan)
 
+    log('[c07] %.1fs flags done' % (time.time()-ck.t0))
     # ---- D. direct judgement on goldens and mutants ----------------------------------------------
     mirror = os.path.join(sc, "golden")
     shutil.copytree(TESTDATA, mirror, ignore=shutil.ignore_patterns("*.txt", "*.c", "*.o"))
@@ -829,6 +834,7 @@ def main():
     ck.cov["direct"] = dict(goldens=len(units), mutants=nD, mutation_kinds=mutkinds, runs_with_error=n_err_runs, runs_warning_only=n_warn_only,
                             runs_clean=n_clean, **stats)
 
+    log('[c07] %.1fs direct done' % (time.time()-ck.t0))
     # ---- K. kddp on a sample ----------------------------------------------------------------------
     nK = 36 if ck.quick else 260
     pool = [(s, d, root, o) for (s, d, root), o in zip(scen, scen_obs) if o is not None]
@@ -894,6 +900,7 @@ def main():
             continue        # --module-linken=false hands a faulty AST to the code generator: codegen_ok is not known
         if want != got and not ck.violations:
             ck.broken_obligation("correspondence Flags.compile vs kddp fails: option %s model %s kddp exit=%d object=%d trace %s" % (opt, want, rc, size, " ".join(s.trace())), err[-800:])
+    log('[c07] %.1fs kddp done' % (time.time()-ck.t0))
     ck.cov["kddp"] = kstat
 
     ck.cov["diag_codes_validated"] = dict(sorted(codes.items()))
